@@ -94,6 +94,15 @@ def build():
         for line in f:
             if line.strip():
                 props.append(json.loads(line)['id'])
+    import importlib
+
+    for pid in props:
+        try:
+            mod = importlib.import_module('vf.props.' + pid.lower())
+        except ImportError:
+            continue
+        if hasattr(mod, 'MANIFEST'):
+            CHECKS[pid] = mod.MANIFEST
     checks = []
     for pid in props:
         if pid not in CHECKS:
